@@ -523,6 +523,14 @@ def wbem_request(conn, req_data, cimxml_headers, target_type='server'):
             f"requests raised an urllib3 exception {type(exc)} directly",
             RequestExceptionWarning, 1)
         raise pywbem_urllib3_exception(exc, conn)
+    except ValueError as exc:
+        # For example, an invalid URL in the Location header field of a
+        # redirect response, that is rejected by urllib.parse.
+        new_exc = ConnectionError(
+            f"Invalid HTTP response from {conn.url}: {exc}",
+            conn_id=conn.conn_id)
+        new_exc.__cause__ = None
+        raise new_exc
 
     if target_type == 'server':
         # Get the optional response time header
